@@ -61,9 +61,12 @@ class Recorder:
         requests.request = boundary._request
 
 
-def observe(n, outcomes):
+LAYOUTS = {3: [0, 0, 1], 4: [0, 1, 0, 2]}      # node lists in which one address is listed twice (a weighted list): position -> address
+
+
+def observe(n, outcomes, layout=None):
     from pytezos.rpc.node import RpcMultiNode, RpcError
-    uris = ['http://node%d.invalid' % i for i in range(n)]
+    uris = ['http://node%d.invalid' % (layout[i] if layout else i) for i in range(n)]
     node = RpcMultiNode(uris if n > 1 else uris[0])
     rec = Recorder()
     rec.install()
@@ -88,9 +91,16 @@ def observe(n, outcomes):
     return obs
 
 
-def compare(ctx, n, log, sig='C28:replay'):
+def compare(ctx, n, log, sig='C28:replay', layout=None):
     outcomes = [e[1] for e in log]
-    obs = observe(n, outcomes)
+    obs = observe(n, outcomes, layout)
+    if layout:
+        for i, ((node, o), (hit, res, k)) in enumerate(zip(log, obs)):
+            if hit != [layout[node]]:
+                ctx.mismatch(sig + ':repeated-address:wrong-node', 'request %d of %s over the node list %s (addresses by position) went to address(es) %s, the model says position %d = address %d' % (
+                    i + 1, outcomes, layout, hit, node, layout[node]), {'n': n, 'log': to_json(log), 'layout': layout})
+                return False
+        return True
     for i, ((node, o), (hit, res, k)) in enumerate(zip(log, obs)):
         failed_before = any(e[1] in FAILING for e in log[:i])
         want_res = 'ok' if o in ('ok', 'retry_ok') else 'err'
@@ -115,7 +125,7 @@ def run(ctx):
                 'transient-then-error, transport failure raised by the HTTP library, 5xx with a malformed JSON body) for N=1..4 nodes; each maximal behaviour is replayed against a real RpcMultiNode and the node URL of every '
                 'HTTP attempt is observed at the requests boundary; non-trivial = contains at least one failing request before another request. '
                 'Leg C: random outcome sequences recorded and validated by MultiNodeTrace.')
-    ctx.assumptions = ['node identity is observed from the URL passed to requests.request']
+    ctx.assumptions = ['node identity is observed from the URL passed to requests.request; for N=3 and N=4 every behaviour is replayed a second time over a node list that names one address twice']
     L = 4 if ctx.quick else 5
     for n in (1, 2, 3, 4):
         r = ctx.tlc('MultiNode', CFG % (n, L), name='MultiNode_N%d' % n, dump=True)
@@ -127,6 +137,10 @@ def run(ctx):
             ok = compare(ctx, n, log)
             ctx.replayed += 1
             ctx.count((n, log), nontrivial=any(e[1] not in ('ok', 'retry_ok') for e in log[:-1]))
+            if n in LAYOUTS:
+                ok = compare(ctx, n, log, layout=LAYOUTS[n]) and ok
+                ctx.replayed += 1
+                ctx.count((n, log, 'repeated-address'), nontrivial=True)
             if ok:
                 ctx.sample({'N': n, 'log': log}, limit=3)
     ctx.exhaustive = True
@@ -158,7 +172,7 @@ def run(ctx):
 def replay(ctx, rep):
     boundary.install()
     c = rep['case']
-    ok = compare(ctx, c['n'], [tuple(e) for e in c['log']])
+    ok = compare(ctx, c['n'], [tuple(e) for e in c['log']], layout=c.get('layout'))
     for m in ctx.mismatches:
         print('REPRODUCED', m.signature, m.detail)
     return 0 if ok else 1
